@@ -20,7 +20,8 @@ quiet_naunet()
 C08_THEOREMS = ["Naunet.C08.pair_table", "Naunet.C08.charge_plus", "Naunet.C08.charge_minus", "Naunet.C08.walk_covers",
                 "Naunet.C08.longest_first_examples", "Naunet.C08.foreign_rejected_examples", "Naunet.C08.massNumber_additive"]
 C09_THEOREMS = ["Naunet.C09.idx_bijective", "Naunet.C09.ident_legal_iff", "Naunet.C09.alias_shape", "Naunet.C09.artefacts_agree",
-                "Naunet.C09.F9_witness", "Naunet.C09.F10_fixed"]
+                "Naunet.C09.F9_witness", "Naunet.C09.F10_fixed", "Naunet.C09.alias_repl_default_identity", "Naunet.C09.aliasFull_default",
+                "Naunet.C09.alias_upper_examples", "Naunet.C09.alias_upper_nodup"]
 C08_RULE = ("names spelled from random compositions over the default element list and over an upper-case list with replacement "
             "(UCLCHEM style): 1-5 symbols with counts (none, 2-12), optional ortho/para-type label, surface prefix '#'/'G' with "
             "optional group, grain symbols with groups, 0-4 trailing charge signs; plus a malformed stream (foreign characters, "
@@ -252,8 +253,7 @@ def run_c08(argv):
                     chk.traces += 1
                     continue
                 keys = ["surface", "grain", "name", "charge", "basename", "gasname", "massnumber", "is_atom", "is_electron"]
-                if cfgname != "upper":
-                    keys.append("alias")
+                keys.append("alias")          # (incl. the upper-case re-spelling modelled by `Sp.aliasFull`)
                 mm = {k: a[k] for k in keys}
                 mm["counts"] = {k: v for k, v in a["counts"]}
                 ii = {k: r[k] for k in keys}
@@ -512,18 +512,16 @@ def summary_check(chk, label, names, cfgname, ref_alias):
 
 
 def model_c09(chk, nets):
-    """the model's alias for every species of every network equals the emitted macro name (default-type lists)"""
+    """the model's alias for every species of every network equals the implementation's (upper-case lists included)"""
     if not getattr(chk, "lean_ok", False):
         return
     from naunet.species import Species
     reqs, want = [], []
     for label, (names, cfgname) in nets.items():
-        if cfgname == "upper":
-            continue
         cfg = CFGS[cfgname]
         configure(cfg)
         reqs.append({"cmd": "species", "elements": cfg["elements"], "pseudo": cfg["pseudo"], "grain": cfg["grain"], "surface": cfg["surface"],
-                     "repl": [], "names": list(names)})
+                     "repl": [[k, v] for k, v in cfg["repl"].items()], "names": list(names)})
         with silenced():
             want.append([Species(n).alias for n in names])
     try:
